@@ -20,7 +20,8 @@ enum { OP_SCHED_NOW = 1, OP_SCHED_FUT, OP_CANCEL, OP_RUN_ALL, OP_HAS_TASKS, OP_C
 // time modes for OP_SCHED_FUT (b) : 0 abs 0, 1 now-delta, 2 now, 3 now+delta, 4 UINT64_MAX, 5 same as the last scheduled time
 // time modes for OP_RUN_ALL (a): 0 clock now, 1 repeat last run time, 2 step back by delta, 3 zero, 4 UINT64_MAX, 5 advance by delta then now
 // behaviour actions (OP_BEHAV: a=task, b=status 0 run/1 canceled, c=action, d=arg)
-enum { B_SCHED_NOW = 1, B_SCHED_FUT, B_RESCHED_SELF_NOW, B_RESCHED_SELF_FUT, B_CANCEL, B_SCHED_THEN_CANCEL };
+enum { B_SCHED_NOW = 1, B_SCHED_FUT, B_RESCHED_SELF_NOW, B_RESCHED_SELF_FUT, B_CANCEL, B_SCHED_THEN_CANCEL, B_CLEANUP };
+// B_CLEANUP: a 'shutdown task': its function cleans the scheduler up from inside run_all (the rest of the running batch still runs)
 
 enum TState { IDLE = 0, PENDING };
 
@@ -61,6 +62,7 @@ struct Ctx {
     uint64_t hist = 7;                   // history fingerprint
     uint64_t invocations = 0, behav_fired = 0, ops_done = 0;
     struct aws_linked_list staging; // caller-owned list that borrows task->node while a task is not scheduled
+    bool cleaned_in_run = false; // a task function cleaned the scheduler up during the current run_all: nobody may use it until it is initialised again
     int64_t chain_left = 0; // clean-up chain: a task cancelled by clean_up schedules itself again, this many more times in total
     int cleanup_sched_budget = 0; // bounds task functions that keep scheduling during clean-up (a caller-made infinite loop otherwise)
 };
@@ -150,6 +152,20 @@ void do_cancel(Ctx &c, TaskM &t, bool idle_ok = false, bool reinit = false) {
 
 void run_behaviours(Ctx &c, TaskM &self, const std::vector<Behav> &bl) {
     for (const Behav &b : bl) {
+        if (c.cleaned_in_run) return;
+        if (b.action == B_CLEANUP) {
+            if (!c.in_run_all || c.in_cleanup) continue;
+            sim::probe("scheduler_cleaned_up_from_inside_a_task_function");
+            c.in_cleanup = true;
+            c.cleanup_sched_budget = 0;
+            aws_task_scheduler_clean_up(&c.sched);
+            c.in_cleanup = false;
+            for (auto &t : c.tasks)
+                if (t.state == PENDING && !t.in_batch)
+                    sim::violation("c07:cleanup-left", "task %d still pending (never invoked) after a clean_up made from inside a task function", t.id);
+            c.cleaned_in_run = true;
+            return;
+        }
         if (c.behav_fired >= 300) return;
         if (c.in_cleanup && b.action != B_CANCEL) {
             if (c.cleanup_sched_budget <= 0) continue;
@@ -276,6 +292,10 @@ void do_run_all(Ctx &c, uint64_t now) {
     for (TaskM *t : asap) c.batch_asap.push_back(t->id);
     aws_task_scheduler_run_all(&c.sched, now);
     c.in_run_all = false;
+    if (c.cleaned_in_run) { // the shutdown task is done and so is the rest of its batch: a new scheduler lifetime begins
+        c.cleaned_in_run = false;
+        if (aws_task_scheduler_init(&c.sched, c.alloc)) sim::violation("c07:harness", "re-init failed");
+    }
     for (auto &t : c.tasks)
         if (t.in_batch)
             sim::violation("c07:not-run", "task %d (time %llu, %s) was pending and due at run_all(now=%llu) but was not invoked by it", t.id,
@@ -429,7 +449,8 @@ void gen(uint64_t seed, int tier, sim::Plan &p) {
         b.thr = -1; b.kind = OP_BEHAV;
         b.a = r.range(0, nt - 1);
         b.b = r.chance(0.3);
-        b.c = r.range(1, 6);
+        b.c = r.chance(0.03) ? B_CLEANUP : r.range(1, 6);
+        if (b.c == B_CLEANUP) b.b = 0; // on RUN only
         switch (b.c) {
             case B_SCHED_NOW: case B_CANCEL: case B_SCHED_THEN_CANCEL: b.d = r.range(0, nt - 1); break;
             case B_SCHED_FUT: b.d = r.range(0, nt - 1) * 1000 + r.range(0, 5) * 100 + r.range(0, 4) * 2 + (r.chance(pf) ? 1 : 0); break;
@@ -477,7 +498,7 @@ std::string op_text(const sim::Op &op) {
     char b[160];
     static const char *tm[] = {"t=0", "now-d", "now", "now+d", "UINT64_MAX", "same-as-last"};
     static const char *rm[] = {"now", "repeat-last", "now-d", "0", "UINT64_MAX", "advance-d-then-now"};
-    static const char *ba[] = {"?", "schedule_now", "schedule_future", "reschedule-self-now", "reschedule-self-future", "cancel", "schedule-then-cancel"};
+    static const char *ba[] = {"?", "schedule_now", "schedule_future", "reschedule-self-now", "reschedule-self-future", "cancel", "schedule-then-cancel", "clean_up of the scheduler"};
     switch (op.kind) {
         case OP_SCHED_NOW: snprintf(b, sizeof b, "schedule_now(task %lld)%s", (long long)op.a, op.b ? " [task->node still carries links of a caller list]" : ""); break;
         case OP_SCHED_FUT: snprintf(b, sizeof b, "schedule_future(task %lld, %s, d=%lld)%s%s", (long long)op.a, tm[op.b % 6], (long long)op.c, (op.d & 1) ? " [push_ref fails]" : "", (op.d & 2) ? " [task->node still carries links of a caller list]" : ""); break;
@@ -492,7 +513,7 @@ std::string op_text(const sim::Op &op) {
             break;
         }
         case OP_BULK_CANCEL: snprintf(b, sizeof b, "bulk cancel %lld tasks from task %lld", (long long)op.b, (long long)op.a); break;
-        case OP_BEHAV: snprintf(b, sizeof b, "behaviour: task %lld on %s does %s(arg %lld)", (long long)op.a, op.b ? "CANCELED" : "RUN", ba[op.c % 7], (long long)op.d); break;
+        case OP_BEHAV: snprintf(b, sizeof b, "behaviour: task %lld on %s does %s(arg %lld)", (long long)op.a, op.b ? "CANCELED" : "RUN", ba[op.c % 8], (long long)op.d); break;
         default: snprintf(b, sizeof b, "?");
     }
     return b;
